@@ -263,12 +263,22 @@ def seq_case(draw):
         items = [draw(scalar_rep(["float"])) for _ in range(n)]
     elif cont == "ndarray_int":
         items = [draw(scalar_rep(["int"])) for _ in range(n)]
+    elif draw(st.integers(0, 2)) == 0:
+        # one family of representations, mixed inside it: a naive datetime followed by aware ones, strings with and
+        # without zone, python and numpy numbers, datetime64 of several units in one object sequence
+        fam = draw(st.sampled_from(FAMILIES))
+        items = [draw(scalar_rep(fam)) for _ in range(max(n, 2))]
     elif cont in ("list", "tuple"):
         rep = draw(st.sampled_from(SCALAR_REPS))
         items = [draw(scalar_rep([rep])) for _ in range(n)]
     else:
         items = [draw(scalar_rep()) for _ in range(n)]
     return {"container": cont, "items": items}
+
+
+FAMILIES = [["naive", "aware", "aware_zone", "pd_aware", "pd_naive"], ["naive", "aware"],
+            ["iso_Z", "iso_offset", "iso_none"], ["int", "float", "np_int64", "np_float64", "np_int32"],
+            ["dt64_s", "dt64_ms", "dt64_us", "dt64_ns", "dt64_m", "dt64_h", "dt64_D"]]
 
 
 def build_seq(case):
@@ -335,6 +345,10 @@ def run_seq(case):
     classes = ["cont_" + case["container"]]
     if len(reps) > 1:
         classes.append("heterogeneous")
+        for fam in FAMILIES:
+            if reps <= set(fam):
+                classes.append("heterogeneous_within_family_" + fam[0])
+                break
     return {"nontrivial": any(nontrivial(r) for r in items), "classes": classes}
 
 
